@@ -10,15 +10,15 @@
 From GocqlV Require Import Lib.Base C15.Model C15.Spec C15.Proofs2 C15.Proofs3.
 
 Theorem C15_request_carries_previous_state_refuted :
-  exists (pages : list (list Z * list Z)) (fin : reply Z) (ls : list label),
+  exists (pages : list (list Z * list Z * Z)) (fin : reply Z Z) (ls : list label),
     continues fin = false
-    /\ Nat.lt (length (concat (map fst pages) ++ match fin with RPage rows _ _ => rows | _ => [] end)) (ncalls ls)
-    /\ m_reqs (snd (sched 0 true (prefetch_pos 1 4) (open 0 true (prefetch_pos 1 4) [] (map (@more_page Z) pages ++ [fin])) ls))
-       <> mkReq 0 None :: map (fun p => mkReq 0 (Some (snd p))) pages
+    /\ Nat.lt (length (concat (map (page_rows UseServer) pages) ++ fin_rows UseServer fin)) (ncalls ls)
+    /\ m_reqs (snd (sched 0 true (prefetch_pos 1 4) UseServer 0 (open 0 true (prefetch_pos 1 4) UseServer 0 [] (map (@more_page Z Z) pages ++ [fin])) ls))
+       <> mkReq 0 None :: map (fun p => mkReq 0 (Some (snd (fst p)))) pages
     (* what is sent instead: the first request once more *)
-    /\ m_reqs (snd (sched 0 true (prefetch_pos 1 4) (open 0 true (prefetch_pos 1 4) [] (map (@more_page Z) pages ++ [fin])) ls))
+    /\ m_reqs (snd (sched 0 true (prefetch_pos 1 4) UseServer 0 (open 0 true (prefetch_pos 1 4) UseServer 0 [] (map (@more_page Z Z) pages ++ [fin])) ls))
        = [mkReq 0 None; mkReq 0 None].
 Proof.
-  exists [([1; 2], [])], (RPage [3] false []), [LScan; LScan; LScan; LScan].
+  exists [([1; 2], [], 0)], (RPage [3] false [] 1), [LScan; LScan; LScan; LScan].
   split; [reflexivity|]. split; [vm_compute; lia|]. split; [vm_compute; discriminate|vm_compute; reflexivity].
 Qed.
